@@ -232,16 +232,16 @@ fn body(ctx: &Ctx, acc: &mut Acc, started: &AtomicU64, t0: Instant) {
     let max_cases: u64 = if ctx.quick() { 20_000 } else { 1_000_000_000 };
     let cur = cur_file(&ctx.prop, ctx.shard);
     let mut i = 0u64;
-    let mut base_case: Option<String> = None;
+    let mut base_case: Option<FunCase> = None;
     while ctx.time_left() && i < max_cases {
         let seed = ctx.case_seed(i);
         i += 1;
         let mut rng = Rng::new(seed);
         if base_case.is_none() || i % 8 == 0 {
-            let c = gen_fun_case(seed, EffectMode::Anywhere, |_, _| {});
-            base_case = Some(c.src);
+            base_case = Some(gen_fun_case(seed, EffectMode::Anywhere, |_, _| {}));
         }
-        let base = base_case.as_ref().unwrap();
+        let base_full = base_case.as_ref().unwrap();
+        let base = &base_full.src;
         let (text, what): (String, String) = match rng.below(20) {
             0..=7 => {
                 let mut t = base.clone();
@@ -274,6 +274,11 @@ fn body(ctx: &Ctx, acc: &mut Acc, started: &AtomicU64, t0: Instant) {
                 (mutate::nested(k, depth), format!("nesting kind {k} depth {depth}"))
             }
             16 => (rng.pick(SPECIAL).to_string(), "special".to_string()),
+            // a user definition named like a label the compiler generates for this very program
+            18 => match super::c14::clash_text(base_full) {
+                Some(t) => (t, "definition renamed to a generated label".to_string()),
+                None => (base.clone(), "unmutated generated program".to_string()),
+            },
             17 => {
                 // valid programs with non-regular / mutually recursive types, as they are and mutated
                 let b = rng.pick(super::corpus::BUILTIN).1.to_string();
